@@ -165,6 +165,9 @@ func (g *Gen) applyCall(ci *callInfo, st *State, r string, pos token.Pos, argOve
 			g.storeType(st, g.val(c.elem).T, c.typ, g.loadTypeH(st, c.tmp, c.typ, "cell"), "elm")
 		}
 	}()
+	if ci.con == nil && g.canInline(ci) {
+		return g.inlineCall(ci, actuals, st, r)
+	}
 	if ci.con == nil {
 		g.stats.Uncontracted[ci.key]++
 		g.havocAll(st)
@@ -249,6 +252,26 @@ func (g *Gen) applyCall(ci *callInfo, st *State, r string, pos token.Pos, argOve
 				g.havocCells(st, v.GoT, v.Addr)
 			}
 		}
+		for _, me := range c.ModEach {
+			// quantified havoc: every cell lv(l) with pred(l) may change, everything else of that kind is kept
+			n := env.child()
+			n.vars[me.Var] = Val{T: "l", Sort: "Loc"}
+			pred := n.trBool(me.Pred)
+			lv := n.tr(me.LV)
+			if !lv.isLv() || lv.Addr != "l" {
+				panic(fmt.Errorf("'each' modifies item of %s must have the form cell_T(%s)", ci.key, me.Var))
+			}
+			k := lv.GKind
+			if k == "" {
+				k = g.scalarKind(lv.GoT)
+			}
+			hold := g.heap(st, k)
+			hn := g.fresh("He_" + k)
+			g.declare(hn, g.u.heapSort(k))
+			st.H[k] = hn
+			g.assume("(forall ((l Loc)) (! (=> (not " + pred + ") (= (select " + hn + " l) (select " + hold + " l))) :pattern ((select " + hn + " l))))")
+			g.frames = append(g.frames, havocFrame{kind: k, hn: hn, hpre: hold, conds: "(not " + pred + ")"})
+		}
 		if c.Allocates {
 			an := g.fresh("A")
 			g.declare(an, "Int")
@@ -277,6 +300,12 @@ func (g *Gen) applyCall(ci *callInfo, st *State, r string, pos token.Pos, argOve
 	post.pkg = ci.pkg
 	g.assumeResultFacts(res, ci.sig, st)
 	for i, en := range c.Ensures {
+		// A check of property P may rely only on callee clauses that are themselves checked
+		// under P (clauses tagged P, or untagged ones): otherwise a change that breaks a clause
+		// checked only under another property would silently invalidate this proof.
+		if g.onlyProp != "" && !c.Trusted && len(en.Tags) > 0 && !propMatch(en.Tags, g.onlyProp) {
+			continue
+		}
 		t := g.mustClause(post, en.E, fmt.Sprintf("call %s ensures#%d", ci.key, i))
 		g.guardAssume(r, t)
 	}
@@ -492,4 +521,111 @@ func (g *Gen) copyBuiltin(v ssa.Value, cc *ssa.CallCommon, st *State, r string) 
 	if v != nil {
 		g.defVal(v, m)
 	}
+}
+
+// canInline: a same-module callee without contract, with a body, without loops, defers or
+// recursion, small enough. Inlining keeps "extract helper" refactorings from raising alarms
+// and lets the caller's obligations see through helpers.
+func (g *Gen) canInline(ci *callInfo) bool {
+	fn := ci.fn
+	if fn == nil || len(fn.Blocks) == 0 || ci.dynamic {
+		return false
+	}
+	if fn.Pkg == nil || !strings.HasPrefix(fn.Pkg.Pkg.Path(), "github.com/TarsCloud/TarsGo") {
+		return false
+	}
+	if len(g.inlining) >= 3 {
+		return false
+	}
+	for _, k := range g.inlining {
+		if k == ci.key {
+			return false
+		}
+	}
+	if ci.key == g.key {
+		return false
+	}
+	n := 0
+	for _, b := range fn.Blocks {
+		for _, s := range b.Succs {
+			if s.Dominates(b) {
+				return false // loop
+			}
+		}
+		for _, ins := range b.Instrs {
+			switch ins.(type) {
+			case *ssa.DebugRef:
+				continue
+			case *ssa.Defer, *ssa.Go, *ssa.Select, *ssa.RunDefers:
+				return false
+			}
+			n++
+		}
+	}
+	return n <= 200 && fn.Recover == nil
+}
+
+func (g *Gen) inlineCall(ci *callInfo, actuals []Val, st *State, r string) Val {
+	fn := ci.fn
+	g.stats.Abstractions["inlined:"+shortKey(ci.key)]++
+	// save caller context
+	sFn, sPfx, sEntry, sRets, sLoops, sInLoop, sCur := g.fn, g.pfx, g.entryR, g.rets, g.loops, g.inLoop, g.curBlock
+	g.ninline++
+	g.fn, g.pfx, g.entryR, g.rets = fn, fmt.Sprintf("in%d_", g.ninline), r, nil
+	g.loops, g.inLoop = map[*ssa.BasicBlock]*loopInfo{}, map[*ssa.BasicBlock][]*loopInfo{}
+	g.inlining = append(g.inlining, ci.key)
+	for i, p := range fn.Params {
+		if i < len(actuals) {
+			g.vals[p] = actuals[i]
+		}
+	}
+	for i, fv := range fn.FreeVars {
+		idx := len(fn.Params) + i
+		if idx < len(actuals) {
+			g.vals[fv] = actuals[idx]
+		}
+	}
+	entry := st.clone()
+	for _, b := range rpo(fn, isBackEdge) {
+		g.block(b, entry)
+	}
+	rets := g.rets
+	// restore
+	g.fn, g.pfx, g.entryR, g.rets, g.loops, g.inLoop, g.curBlock = sFn, sPfx, sEntry, sRets, sLoops, sInLoop, sCur
+	g.inlining = g.inlining[:len(g.inlining)-1]
+	if len(rets) == 0 {
+		// the callee never returns normally (always panics): the rest is unreachable
+		g.assume("(not " + r + ")")
+		res, _ := g.resultVals(ci.sig, st, "nores")
+		return res
+	}
+	var edges []string
+	var sts []*State
+	for _, rt := range rets {
+		edges = append(edges, rt.r)
+		sts = append(sts, rt.st)
+	}
+	m := g.mergeStates(edges, sts)
+	st.H, st.A = m.H, m.A
+	// a return is reached whenever the call is reached (panics are separate obligations)
+	g.assume("(=> " + r + " " + orTerms(edges) + ")")
+	n := ci.sig.Results().Len()
+	var tup []Val
+	for i := 0; i < n; i++ {
+		t := rets[len(rets)-1].results[i].T
+		for j := len(rets) - 2; j >= 0; j-- {
+			t = "(ite " + rets[j].r + " " + rets[j].results[i].T + " " + t + ")"
+		}
+		rt := ci.sig.Results().At(i).Type()
+		nm := g.fresh("inres")
+		g.define(nm, g.u.sortOf(rt), t)
+		tup = append(tup, Val{T: nm, Sort: g.u.sortOf(rt), GoT: rt})
+	}
+	switch n {
+	case 0:
+		return Val{}
+	case 1:
+		return tup[0]
+	}
+	return Val{Tuple: tup}
 }
